@@ -1,8 +1,134 @@
 (* Properties_C10.v -- the property theorems, nothing else. *)
 From Coq Require Import List Arith Bool.
 Import ListNotations.
-From Heph Require Import Types.Syntax Types.Subst Types.Subtype Types.Unify Types.UnifyProofs.
+From Heph Require Import Types.Syntax Types.Subst Types.Subtype Types.Unify Types.UnifySpec
+  Types.UnifyDefs Types.UnifyProofs.
 
-Theorem fresh_variable_is_assigned : forall m k v, tv_get m k = None -> update_map m k v = Some (tv_set m k v).
-Proof. exact update_map_fresh. Qed.
-Print Assumptions fresh_variable_is_assigned.
+(* U1: no variable is given two types *)
+Theorem unify_keys_distinct : forall w al any fuel same t1 t2 m,
+  unify w al any fuel same t1 t2 = Val m -> keys_distinct m = true.
+Proof. exact unify_keys_distinct_lemma. Qed.
+Print Assumptions unify_keys_distinct.
+
+(* U2: keys are type variables; nothing is assigned None *)
+Theorem unify_assigns_types : forall w al any fuel same t1 t2 m k v,
+  unify w al any fuel same t1 t2 = Val m -> In (k, v) m -> is_tvar k = true /\ v <> None.
+Proof. exact unify_assigns_types_lemma. Qed.
+Print Assumptions unify_assigns_types.
+
+(* U3: _update_type_var_map succeeds exactly when the variable is unassigned or already
+   assigned an equal type; it then (re)binds that variable and nothing else *)
+Theorem unify_conflict_detected : forall m k v,
+  (forall m', update_map m k v = Some m' ->
+     (forall old, tv_get m k = Some (Some old) -> exists x, v = Some x /\ py_eqb old x = true) /\
+     tv_get m' k = Some v /\
+     (forall k', py_eqb k' k = true -> tv_get m' k' = Some v) /\
+     (forall k', py_eqb k' k = false -> tv_get m' k' = tv_get m k')) /\
+  (update_map m k v = None ->
+     exists old, tv_get m k = Some (Some old) /\ forall x, v = Some x -> py_eqb old x = false).
+Proof. exact unify_conflict_detected_lemma. Qed.
+Print Assumptions unify_conflict_detected.
+
+(* U3 for merging the answer of a recursive call into the accumulated assignment *)
+Theorem merge_conflict_detected : forall res m m', merge m res = Some m' -> keys_distinct res = true ->
+  (forall k v, tv_get res k = Some v ->
+     tv_get m' k = Some v /\
+     (forall old, tv_get m k = Some (Some old) -> exists x, v = Some x /\ py_eqb old x = true)) /\
+  (forall k, tv_get res k = None -> tv_get m' k = tv_get m k).
+Proof. exact merge_conflict_detected_lemma. Qed.
+Print Assumptions merge_conflict_detected.
+
+(* U5 as first stated is FALSE: two key objects that are == in Python may carry bounds that
+   differ in a primitive flag, and is_subtype is not invariant under == *)
+Theorem unify_bounds_refuted :
+  ~ (forall w al any fuel t1 t2 m k v x vv b,
+       unify w al any fuel true t1 t2 = Val m -> In (k, Some v) m -> k = TVar x vv (Some b) ->
+       has_tv b = false -> satisfies w any v b).
+Proof. exact unify_bounds_refuted_lemma. Qed.
+Print Assumptions unify_bounds_refuted.
+
+(* U5, partial: extra hypothesis = Python equality determines the bound b *)
+Theorem unify_bounds_partial : forall w al any fuel t1 t2 m k v x vv b,
+  (forall b', py_eqb b' b = true -> b' = b) ->
+  unify w al any fuel true t1 t2 = Val m -> In (k, Some v) m -> k = TVar x vv (Some b) ->
+  has_tv b = false -> satisfies w any v b.
+Proof. exact unify_bounds_partial_lemma. Qed.
+Print Assumptions unify_bounds_partial.
+
+(* U5, no extra hypothesis, conclusion up to Python equality of the bound (both modes) *)
+Theorem unify_bounds_upto : forall w al any fuel same t1 t2 m k v x vv b,
+  unify w al any fuel same t1 t2 = Val m -> In (k, Some v) m -> k = TVar x vv (Some b) ->
+  has_tv b = false -> exists b', py_eqb b' b = true /\ satisfies w any v b'.
+Proof. exact unify_bounds_upto_lemma. Qed.
+Print Assumptions unify_bounds_upto.
+
+(* U4 as first stated is FALSE: a bounded variable occurring twice can be assigned at one
+   occurrence (argument is a subtype of the bound) and matched against its bound at the other *)
+Theorem unify_matches_refuted :
+  ~ (forall w al any fuel t1 t2 m, has_tv t1 = false ->
+       unify w al any fuel true t1 t2 = Val m -> m <> [] -> Matches m t2 t1).
+Proof. exact unify_matches_refuted_lemma. Qed.
+Print Assumptions unify_matches_refuted.
+
+(* ... and also false, even with variable-free bounds, when the argument lists have different
+   lengths (terms that ParameterizedType.__init__ rejects) *)
+Theorem unify_matches_arity_needed :
+  ~ (forall w al any fuel t1 t2 m, has_tv t1 = false -> closed_bounds t2 = true ->
+       unify w al any fuel true t1 t2 = Val m -> m <> [] -> Matches m t2 t1).
+Proof. exact unify_matches_arity_needed_lemma. Qed.
+Print Assumptions unify_matches_arity_needed.
+
+(* U4, partial: extra hypotheses = both types respect the declared arities and every bounded
+   variable of the pattern has a variable-free bound *)
+Theorem unify_matches_partial : forall w al any fuel t1 t2 m,
+  arity_ok w t1 = true -> arity_ok w t2 = true -> closed_bounds t2 = true ->
+  unify w al any fuel true t1 t2 = Val m -> m <> [] -> Matches m t2 t1.
+Proof. exact unify_matches_partial_lemma. Qed.
+Print Assumptions unify_matches_partial.
+
+(* U4, weak: arities only; conclusion = Matches without the "variable left open" premise of
+   the bounded-variable rule (MatchesW, Types/UnifyDefs.v) *)
+Theorem unify_matches_weak : forall w al any fuel t1 t2 m,
+  arity_ok w t1 = true -> arity_ok w t2 = true ->
+  unify w al any fuel true t1 t2 = Val m -> m <> [] -> MatchesW m t2 t1.
+Proof. exact unify_matches_weak_lemma. Qed.
+Print Assumptions unify_matches_weak.
+
+(* non-vacuity: A<Box<Int>, out String> against A<Box<X>, out Y>, against A<Box<X>, in Y>
+   (projections of different kinds), and the repeated-variable conflict A<Int,String> / A<Y,Y> *)
+Theorem unify_example_projection :
+  unify w4 [] 1 5 true (TApp 2 [TApp 1 [Int4]; TWild Cov (Some Str4)])
+                       (TApp 2 [TApp 1 [Z4]; TWild Cov (Some Y4)])
+  = Val [(Z4, Some Int4); (Y4, Some Str4)].
+Proof. exact unify_example_out. Qed.
+Print Assumptions unify_example_projection.
+
+Theorem unify_example_projection_kinds :
+  unify w4 [] 1 5 true (TApp 2 [TApp 1 [Int4]; TWild Cov (Some Str4)])
+                       (TApp 2 [TApp 1 [Z4]; TWild Contra (Some Y4)])
+  = Val [].
+Proof. exact unify_example_in. Qed.
+Print Assumptions unify_example_projection_kinds.
+
+Theorem unify_example_repeated_variable :
+  unify w4 [] 1 5 true (TApp 2 [Int4; Str4]) (TApp 2 [Y4; Y4]) = Val [].
+Proof. exact unify_example_conflict. Qed.
+Print Assumptions unify_example_repeated_variable.
+
+Theorem unify_example_is_unifier :
+  Matches [(Z4, Some Int4); (Y4, Some Str4)]
+          (TApp 2 [TApp 1 [Z4]; TWild Cov (Some Y4)])
+          (TApp 2 [TApp 1 [Int4]; TWild Cov (Some Str4)]).
+Proof. exact unify_example_matches. Qed.
+Print Assumptions unify_example_is_unifier.
+
+(* U6: in supertype-matching mode a non-empty answer is the answer of the non-recursive
+   branch (names agree, or the pattern is a variable) on a supertype reached from the target
+   by repeatedly taking the last direct supertype *)
+Theorem unify_supertype_mode : forall w al any fuel t1 t2 m,
+  unify w al any fuel false t1 t2 = Val m -> m <> [] ->
+  exists s f', last_super_chain w t1 s /\
+               unify w al any f' false s t2 = Val m /\
+               (nm_eqb (name_of al s) (name_of al t2) = true \/ is_tvar t2 = true).
+Proof. exact unify_supertype_mode_lemma. Qed.
+Print Assumptions unify_supertype_mode.
